@@ -1568,11 +1568,15 @@ macro_rules! public_decode_function{
                     first_read = read; // Overwrite, don't add!
                     first_written += written;
                 }
-                DecoderResult::Malformed(_, _) => {
+                DecoderResult::Malformed(length, after) => {
                     if first_read == 1usize {
                         // The first byte was malformed. We need to handle
                         // the second one, which isn't in `src`, later.
                         self.life_cycle = DecoderLifeCycle::ConvertingWithPendingBB;
+                        // The second byte has already been acknowledged to
+                        // the caller as consumed, so it counts as a byte
+                        // consumed after the malformed sequence.
+                        first_result = DecoderResult::Malformed(length, after + 1);
                     }
                     first_read = 0usize; // Wasn't read from `src`!
                 }
